@@ -16,7 +16,7 @@ from ..common import *
 from .. import proofgate, protocol, composer, refver
 from .c03 import DRAW, XSEC, G1_GEN
 
-THEOREMS = ["C02_accept_bad_z_bound", "C02_rows_sat_outside_bad_challenges", "C02_opening_exact_agm_partial", "C02_row_evaluator_exact"]
+THEOREMS = ["C02_accept_bad_z_bound", "C02_rows_sat_outside_bad_challenges", "C02_opening_exact_agm_partial", "C02_row_evaluator_exact", "C02_permutation_argument_sound"]
 SEL = ["q_m", "q_l", "q_r", "q_o", "q_f", "q_c", "q_arith", "q_range", "q_logic", "q_fixed", "q_var"]
 COMP_NAMES = {7: ["range c-4d", "range b-4c", "range a-4b", "range d'-4a"],
               8: ["logic a quad", "logic b quad", "logic d quad", "logic product", "logic table"],
